@@ -75,7 +75,7 @@ def run(ctx: Ctx) -> None:
     rep.rule("C07.R14", "a reader that arrives between two publications of a writer is told 'absent': fetch_blob opens the metadata / the blob, and fetch_paths resolves a link, only "
                         "under conditions that imply that this very name exists")
     n14 = S.reads_after_presence(ctx, v, "C07.R14")
-    rep.floor("C07.R14", n14, 5)
+    rep.floor("C07.R14", n14, 4)
     f = ctx.prog.func("dds._api._store")
     if f is not None:
         rep.info("C07.R1", f.qname, "delayed creation of the default store is a check-then-set on a module global inside one process (listed, not judged: the property is about processes)", f.loc())
